@@ -20,6 +20,7 @@ func init() {
 		ruleD5(c, "C14.D5")
 		ruleD6(c, "C14.D6")
 		ruleSlot(c, "C14.D7")
+		ruleT2(c, "C14.D8")
 	}
 }
 
